@@ -193,7 +193,7 @@ def parent(args):
         inconclusive.append("no verdicts at all")
 
     # replay files for unlisted violations
-    replay_dir = os.path.join(VERIF_DIR, "replays")
+    replay_dir = os.environ.get("VMON_REPLAY_DIR") or os.path.join(VERIF_DIR, "replays")
     lines = []
     for n, v in enumerate(merged["violations"][:10]):
         os.makedirs(replay_dir, exist_ok=True)
@@ -238,7 +238,7 @@ def parent(args):
         "wall_s": round(time.time() - t0, 2),
         "violations": int(merged["n_violations"]),
     }
-    core.dump_json(evidence, os.path.join(VERIF_DIR, "evidence", f"{prop}.json"))
+    core.dump_json(evidence, os.path.join(os.environ.get("VMON_EVIDENCE_DIR") or os.path.join(VERIF_DIR, "evidence"), f"{prop}.json"))
 
     for line in lines:
         print(line)
